@@ -295,6 +295,10 @@ def run_sweep(rec, m, nnext, threshold, blockscan=False):
         if not rec.failed and k0 in st["live"] and rec.objs[k0].is_active():
             exec_op(rec, st, "next", k0, None, blockscan)
     if not rec.failed and k0 in st["live"] and rec.objs[k0].is_active() and rec.objs[k0].supports_block_quality():
+        if nnext % 2 == 1:
+            # (every other program asks for the rewritten matcher instead: what a collector does with its threshold)
+            exec_op(rec, st, "replace", k0, threshold, blockscan)
+            return
         exec_op(rec, st, "skipq", k0, threshold, blockscan)
         if not rec.failed and k0 in st["live"]:
             exec_op(rec, st, "quality", k0, None, blockscan)
